@@ -4,7 +4,7 @@ pub mod ffi;
 
 use std::ptr;
 
-use crate::ffi::{c_size_t, sha256::CSha256Midstate, ubounded, UBOUNDED_MAX};
+use crate::ffi::{sha256::CSha256Midstate, ubounded, UBOUNDED_MAX};
 use crate::tests::ffi::{
     bitstream::{simplicity_closeBitstream, CBitstream},
     dag::{
@@ -158,7 +158,7 @@ pub fn run_program(
             &mut type_dag,
             simplicity_elements_mallocBoundVars,
             dag,
-            len,
+            len as _,
             &census,
         )
         .into_result()?;
@@ -169,7 +169,7 @@ pub fn run_program(
         }
 
         // 4. Fill witness data, now that we know the types
-        simplicity_fillWitnessData(dag, type_dag, len as c_size_t, &mut wit_stream)
+        simplicity_fillWitnessData(dag, type_dag, len as _, &mut wit_stream)
             .into_result()?;
         SimplicityErr::from_i32(simplicity_closeBitstream(&mut wit_stream))?;
         if test_up_to <= TestUpTo::FillWitnessData {
@@ -178,14 +178,14 @@ pub fn run_program(
 
         // 5. Check AMR
         let mut analyses = vec![CAnalyses::default(); len];
-        simplicity_computeAnnotatedMerkleRoot(analyses.as_mut_ptr(), dag, type_dag, len);
+        simplicity_computeAnnotatedMerkleRoot(analyses.as_mut_ptr(), dag, type_dag, len as _);
         result.amr = analyses[len - 1].annotated_merkle_root;
         if test_up_to <= TestUpTo::ComputeAmr {
             return Ok(result);
         }
 
         // 6. Check IHR
-        simplicity_verifyNoDuplicateIdentityHashes(&mut result.ihr, dag, type_dag, len)
+        simplicity_verifyNoDuplicateIdentityHashes(&mut result.ihr, dag, type_dag, len as _)
             .into_result()?;
         if test_up_to <= TestUpTo::ComputeIhr {
             return Ok(result);
